@@ -514,3 +514,30 @@ def pos_in(sp, line, col):
 
 def norm_ws(s):
     return re.sub(r"\s+", "", s)
+
+
+def bool_eval(e, atom):
+    """evaluate a Rust boolean expression built from !, &&, ||, parentheses and opaque atoms; `atom(node)` gives the value of an atom"""
+    k = e["k"]
+    if k == "Paren":
+        return bool_eval(e["expr"], atom)
+    if k == "Unary" and e["op"] == "!":
+        return not bool_eval(e["expr"], atom)
+    if k == "Binary" and e["op"] in ("&&", "||"):
+        l = bool_eval(e["lhs"] if "lhs" in e else e["left"], atom)
+        r = bool_eval(e["rhs"] if "rhs" in e else e["right"], atom)
+        return (l and r) if e["op"] == "&&" else (l or r)
+    if k == "Lit" and e.get("value") in (True, False, "true", "false"):
+        return e.get("value") in (True, "true")
+    return atom(e)
+
+
+def bool_atoms(e):
+    k = e["k"]
+    if k == "Paren":
+        return bool_atoms(e["expr"])
+    if k == "Unary" and e["op"] == "!":
+        return bool_atoms(e["expr"])
+    if k == "Binary" and e["op"] in ("&&", "||"):
+        return bool_atoms(e["lhs"] if "lhs" in e else e["left"]) + bool_atoms(e["rhs"] if "rhs" in e else e["right"])
+    return [e]
